@@ -708,6 +708,29 @@ theorem C20_pdpredictive_default_nan_counterexample :
     (pdAddData rows none).1 = .ok (specPD rows 7) := by
   intro rows; exact ⟨rfl, rfl, rfl, rfl, rfl⟩
 
+/-- **fixed-size colour table**: the `enumerate` + `index % n_colors` loop of every `add_data` runs its
+    body once per individual for every cohort size and every palette size — the figures of
+    `C20_row_routing` / `C20_residual_routing` (`ids.map body`) are what it appends — and every colour
+    index is inside the table -/
+theorem C20_palette_every_individual {β γ : Type} (nColors : Nat) (ids : List β) (body : β → γ) :
+    (colourLoop nColors ids body).map (·.1) = ids.map body ∧
+    (0 < nColors → ∀ e ∈ colourLoop nColors ids body, e.2 < nColors) := by
+  unfold colourLoop
+  constructor
+  · rw [List.map_map]
+    have : ((fun x : γ × Nat => x.1) ∘ fun e : β × Nat => (body e.1, e.2 % nColors))
+        = body ∘ Prod.fst := rfl
+    rw [this, ← List.map_map, List.zipIdx_map_fst]
+  · intro hn e he
+    obtain ⟨x, _, rfl⟩ := List.mem_map.mp he
+    exact Nat.mod_lt _ hn
+
+/-- iterating over `zip(ids, colors)` instead loses every individual beyond the table's size -/
+theorem C20_palette_zip_counterexample :
+    (colourLoopZip 10 (List.range 11) id).length = 10 ∧
+    (colourLoop 10 (List.range 11) id).length = 11 := by
+  decide
+
 /-- `add_prediction(bulk_probs=None)`: one trace with exactly the observable's samples -/
 theorem C20_prediction_scatter (rows : List (Row ι ο τ ν)) (observable : Option ο) (o : ο)
     (hO : specObs rows observable = some o) (hex : ∃ r ∈ rows, r.obs = some o) :
